@@ -931,8 +931,12 @@ class EventBus:
                     self._on_idle.set()
                 return None
 
-        except (asyncio.CancelledError, RuntimeError, QueueShutDown):
-            # Clean cancellation during shutdown or queue was shut down
+        except asyncio.CancelledError:
+            # Never swallow cancellation: _run_loop() turns it into a clean exit.
+            # Swallowing it here made a cancelled bus task keep polling forever (asyncio.run() could not exit).
+            raise
+        except (RuntimeError, QueueShutDown):
+            # Queue was shut down or event loop is closing
             return None
 
     async def step(
